@@ -1,5 +1,5 @@
 ENGINES = [
-    {"name": "pyscan", "path": "vt/", "serves_properties": ["C10", "C11", "C13", "C19", "C20"],
+    {"name": "pyscan", "path": "vt/", "serves_properties": ["C01", "C10", "C11", "C13", "C19", "C20"],
      "kind_free_text": "runtime monitoring of the real Python scanner modules imported from /repo's working tree: recorded events judged by independent reference models, icontract invariants on live objects"},
 ]
 NOTES = "All checks: ./check <id> --tier quick|thorough [--seed N]; VERIF_SEED/VERIF_TIER honoured. Exit 0 held / 1 VIOLATION / 2 INCONCLUSIVE. See DESIGN.md."
@@ -28,3 +28,7 @@ ENGINES.append({"name": "fsched", "path": "vt/fsched.py", "serves_properties": [
 add('C18', 'fsched', 'runtime monitoring under a controlled scheduler: every interleaving of the file-system steps of two cache operations (and random ones of three) executed against the real CacheStore, histories judged offline (version current during [call,return], completeness, no escaping exception, purge); store killed at every step; real multi-process stress with SIGKILL',
     'held on the executions produced except for 4 recorded known findings: all interleavings of every operation pair from every initial state on one and across two file systems, sampled triples, all crash points of a store, and a multi-process stress run; one defect (stat-after-open race) was found by the scheduler and fixed',
     'trusted: scheduler/proxies (yield points only between file-system calls; cross-file-system publish observable per chunk); logical clock as mtime; _get_versionhash replaced by a constant inside the scheduler workload only', 'DESIGN.md 4 C18')
+
+add('C01', 'pyscan', 'runtime monitoring, differential: annotated callable vs baselines lacking one annotation, through the real scanner passes; GIR attributes and positioned warning events judged by a three-valued rule table (VALID/INVALID/UNSPECIFIED) written from the documentation',
+    'held on the executions produced: every decided differential (VALID: documented attribute value incl. closure/destroy/length indices, caller-allocates, zero-termination, element types; INVALID: warning on the annotation\'s line and attribute unchanged) agreed with the rule table; two defects found and fixed ((not optional) clearing nullable; (closure) overridden by the name heuristic)',
+    'trusted: rule table (c01.rule), stand-in C parser, stub GIRs; signals/vfuncs not generated here; combinations the documentation leaves open are not judged', 'DESIGN.md 4 C01')
